@@ -13,4 +13,11 @@ Proof. vm_compute. reflexivity. Qed.
 (* non-vacuity: the analysis saw the methods of all four factor kinds and of the measure classes *)
 Theorem purity_methods_seen : Nat.leb 20 (List.length operand_stores) = true.
 Proof. vm_compute. reflexivity. Qed.
+(* C12: every `slice` method hands back a freshly constructed object (never `self` or an operand), so that a later in-place
+   update of the slice or of its source cannot reach the other *)
+Theorem slices_return_fresh_objects : forallb pure slice_not_fresh = true.
+Proof. vm_compute. reflexivity. Qed.
+Theorem slice_methods_seen : Nat.leb 8 (List.length slice_not_fresh) = true.
+Proof. vm_compute. reflexivity. Qed.
 Print Assumptions operands_never_stored_to.
+Print Assumptions slices_return_fresh_objects.
